@@ -427,10 +427,44 @@ def r6_inline_templates_are_linear(ctx):
                 continue
             params, body = ar[0]
             pn = [p.val for p in params.items if isinstance(p, L.Sym)]
-            b = body[-1]
-            if isinstance(b, L.Wrap) and b.tag == "syntax-quote":
-                b = b.form
-            problems = linearity(pn, b)
+            # the expander may choose between templates at expansion time ((if <test on the argument
+            # *forms*> `template-1 `template-2)): every template it can return is held to the rule
+            # A template chosen because an argument form *is a plain symbol* may place that argument
+            # anywhere: evaluating a symbol has no effect to order or to repeat.
+            def symbol_test(t):
+                if L.head(t) in ("symbol?", "simple-symbol?") and len(t.items) == 2 and isinstance(t.items[1], L.Sym):
+                    return t.items[1].val
+                if L.head(t) in ("python/isinstance", "instance?") and len(t.items) == 3:
+                    a, b2 = t.items[1], t.items[2]
+                    if L.head(t) == "instance?":
+                        a, b2 = b2, a
+                    if isinstance(a, L.Sym) and b2.text() in ("basilisp.lang.symbol/Symbol", "sym/Symbol"):
+                        return a.val
+                return None
+
+            def leaves(b, pure=frozenset()):
+                if L.head(b) == "if" and len(b.items) == 4:
+                    s = symbol_test(b.items[1])
+                    return leaves(b.items[2], pure | ({s} if s else set())) + leaves(b.items[3], pure)
+                if L.head(b) in ("let", "let*", "do") and len(b.items) > 2:
+                    return leaves(b.items[-1], pure)
+                return [(b.form if isinstance(b, L.Wrap) and b.tag == "syntax-quote" else b, pure)]
+            problems = []
+            for leaf, pure in leaves(body[-1]):
+                live = [p for p in pn if p not in pure]
+                uses = [(u, c) for u, c in param_uses(leaf, set(pn)) if u not in pure]
+                order = [u for u, _c in uses]
+                leaf_problems = []
+                if any(c for _u, c in uses):
+                    leaf_problems.append(f"parameter {[u for u, c in uses if c][0]} is used in a conditional/deferred position: the argument may be evaluated zero or many times when inlined")
+                if sorted(order) != sorted(live):
+                    dup = [p for p in live if order.count(p) != 1]
+                    leaf_problems.append(f"parameter(s) {dup} used {[order.count(p) for p in dup]} time(s): the argument expression is evaluated that many times when inlined")
+                elif order != live:
+                    leaf_problems.append(f"arguments are evaluated in order {order}, a call evaluates {live}")
+                for p in leaf_problems:
+                    if p not in problems:
+                        problems.append(p)
             n += 1
             ctx.ob("C02.R6", f"{CORE}::{target} :inline template", CORE, f.line, not problems, "; ".join(problems),
                    witness="(instance? (do (swap! order conj :cls) python/int) (do (swap! order conj :obj) 1)) records [:obj :cls]")
@@ -523,6 +557,8 @@ SELFTEST = [
     {"name": "invoke merges the callee by hand again", "file": GEN, "expect": "C02.R1",
      "old": "    deps, fn_node, args_nodes, kwargs_nodes = _call_args_ast(\n        ctx, fn_ast, node.args, node.kwargs\n    )\n\n    return GeneratedPyAST(\n        node=ast.Call(\n            func=fn_node,",
      "new": "    deps0, args_nodes = _collection_ast(ctx, node.args)\n    deps = list(chain(fn_ast.dependencies, deps0))\n    kwargs_nodes = []\n\n    return GeneratedPyAST(\n        node=ast.Call(\n            func=fn_ast.node,"},
+    {"name": "instance? template evaluates the object first for any class form (the repaired defect)", "file": CORE, "expect": "C02.R6",
+     "old": "               (if (python/isinstance class basilisp.lang.symbol/Symbol)\n", "new": "               (if true\n"},
     {"name": "keyword arguments collected into a persistent map (the repaired defect)", "file": ANA, "expect": "C02.R8",
      "old": "                kwargs = types.MappingProxyType(kw_map)\n", "new": "                kwargs = lmap.map(kw_map)\n"},
     {"name": "keyword values chained before the positional arguments", "file": GEN, "expect": "C02.R2",
